@@ -598,10 +598,11 @@ func (e *evalCtx) call(t *ast.CallExpr) Val {
 			cs = append(cs, fmt.Sprintf("(forall ((%s Int)) (=> %s (= (select %s %s) (select %s %s))))", r, and(conds...), hn, r, ho, r))
 		}
 		return boolVal(and(cs...))
-	case "sameoutside":
+	case "sameoutside", "keptoutside":
 		// sameoutside(s): every element of s's object outside
-		// [off(s), off(s)+len(s)) is as in the reference state (old state in a
-		// postcondition, loop entry in an invariant). Frame facts for loops.
+		// [off(s), off(s)+len(s)) is as it was when the function was entered.
+		// keptoutside(s): ... as it was when the innermost loop was entered
+		// (for inner loops that work on one chunk of a buffer).
 		if c.bounded > 0 {
 			return boolVal("true") // bounded stand-in: frame facts are left out (no quantifiers)
 		}
@@ -610,7 +611,7 @@ func (e *evalCtx) call(t *ast.CallExpr) Val {
 			e.fail("sameoutside needs a slice")
 		}
 		ref := e.old
-		if ref == nil {
+		if ref == nil || id.Name == "keptoutside" {
 			ref = e.loopEntry
 		}
 		if ref == nil {
